@@ -2,6 +2,7 @@ package rules
 
 import (
 	"fmt"
+	"go/constant"
 	"go/types"
 	"strings"
 
@@ -306,6 +307,58 @@ func ruleC19(c *Ctx) {
 			}
 		}
 		R.Check(ovOK, key+"#overlap", pos, "the colour selector and the selector plus 64 are both tested against the stop range", "not found")
+		// ... and exactly: over every selector value 0..63 and every stop count 0..64 (finite, enumerated completely by
+		// substituting the constants into the guards of the error returns and folding), an error is returned iff there
+		// are more than 58 stops or some stop register (10+i) mod 64, i < count, is the selected one
+		{
+			var cselAtom, lenTerm *sym.Term
+			var guards []*sym.Term
+			for _, r := range errRets {
+				guards = append(guards, r.Guard)
+				sym.Walk(r.Guard, func(t *sym.Term) bool {
+					if t.Op == "atom" && t.Name == "cSel@0" {
+						cselAtom = t
+					}
+					if t.Key() == "len($param:stops)" {
+						lenTerm = t
+					}
+					return true
+				})
+			}
+			okEx := cselAtom != nil && lenTerm != nil
+			detail := "selector read or stop count not found in the guards"
+			if okEx {
+				detail = ""
+				all := sym.Or(guards...)
+				intT := types.Typ[types.Int]
+				u8t := types.Typ[types.Uint8]
+			outer:
+				for L := int64(0); L <= 64; L++ {
+					gl := sym.Subst(all, lenTerm, sym.Const(constant.MakeInt64(L), intT))
+					for x := int64(0); x < 64; x++ {
+						g := sym.Subst(gl, cselAtom, sym.Const(constant.MakeInt64(x), u8t))
+						got, isC := simplifyBits(g).BoolVal()
+						want := L > 58
+						for i := int64(0); i < L && !want; i++ {
+							if (10+i)%64 == x {
+								want = true
+							}
+						}
+						if !isC {
+							okEx = false
+							detail = fmt.Sprintf("CSEL=%d, %d stops: the guard does not fold to a constant: %s", x, L, shortKey(g))
+							break outer
+						}
+						if got != want {
+							okEx = false
+							detail = fmt.Sprintf("CSEL=%d, %d stops: error returned = %v, wanted %v", x, L, got, want)
+							break outer
+						}
+					}
+				}
+			}
+			R.Check(okEx, key+"#errors-exact", pos, "an error iff more than 58 stops or CSEL is one of the stop registers (10+i) mod 64", detail)
+		}
 	}
 
 	// C19.2 layout
@@ -379,13 +432,24 @@ func ruleC19(c *Ctx) {
 						}
 					}
 					// and it is a gradient-encoding colour
-					if vg := c.Fn("", "ValidGradient"); vg != nil {
-						in2 := c.Interp()
-						res, _, _ := in2.Run(vg, []*sym.Term{gcol.Args[1]}, nil)
-						if b, isC := simplifyBits(res).BoolVal(); !isC || !b {
-							okNames = false
-							detail += " ValidGradient=" + shortKey(res)
+					// (the specification's test - alpha zero, bit 7 of blue set - on the bits of the colour written;
+					// that ValidGradient is this test is C04.8's business, so its spelling does not matter here)
+					if rgba := gcol.Args[1]; len(rgba.Args) == 4 {
+						bb, eb := toBits(rgba.Args[2], 8)
+						ab, ea := toBits(rgba.Args[3], 8)
+						isGrad := eb == nil && ea == nil && bb[7].Atom == "" && bb[7].Const == 1
+						for i := 0; isGrad && i < 8; i++ {
+							if ab[i].Atom != "" || ab[i].Const != 0 {
+								isGrad = false
+							}
 						}
+						if !isGrad {
+							okNames = false
+							detail += fmt.Sprintf(" (not a gradient-encoding colour: B=%s A=%s)", shortKey(rgba.Args[2]), shortKey(rgba.Args[3]))
+						}
+					} else {
+						okNames = false
+						detail += " (colour literal not recognised)"
 					}
 				}
 				R.Check(okNames, key+"#gradient.value", c.Pos(gradW.Site), "decodes (DecodeGradient) to the bases the selectors are set to, the shape and the spread, and is a gradient-encoding colour", detail)
